@@ -455,9 +455,8 @@ def main(argv=None):
             print(f"VIOLATION property={pid} replay={v['replay']}")
         return 1
     if harness_errors:
-        for h in harness_errors:
-            if h:
-                print('HARNESS-ERROR:', h, file=sys.stderr)
+        hs = [h for h in harness_errors if h]
+        print(f'HARNESS-ERROR ({len(hs)} reports; first shown):', hs[0][-3000:] if hs else '', file=sys.stderr)
         return 2
     if cov['evaluations'] == 0:
         print('HARNESS-ERROR: no case evaluated', file=sys.stderr)
